@@ -16,6 +16,7 @@ package internal
 
 import (
 	"cmp"
+	enchex "encoding/hex"
 	"hash/fnv"
 	"iter"
 	"maps"
@@ -24,6 +25,7 @@ import (
 	"strconv"
 	"strings"
 	"sync"
+	"unicode/utf8"
 	"unique"
 )
 
@@ -102,6 +104,23 @@ func hasNormalizationHeader(m map[string]struct{}, field string) bool {
 // normalizeHeaderValue normalizes a header value according to the rules defined
 // in RFC 9111 §4.1. Assumes a canonicalized header field name.
 func normalizeHeaderValue(field, value string) string {
+	return jsonSafe(normalizeHeaderValueText(field, value))
+}
+
+// jsonSafe maps a header value that is not valid UTF-8 (obs-text bytes are legal in
+// field values) to a string that survives the JSON encoding of the variant index
+// unchanged: encoding/json would replace each invalid byte with U+FFFD, so the
+// stored value would never compare equal to the request's value again. The result
+// starts with NUL, which no field value can contain, so it cannot collide with a
+// value that is valid UTF-8.
+func jsonSafe(value string) string {
+	if utf8.ValidString(value) {
+		return value
+	}
+	return "\x00" + enchex.EncodeToString([]byte(value))
+}
+
+func normalizeHeaderValueText(field, value string) string {
 	if value == "" {
 		return ""
 	}
